@@ -235,7 +235,14 @@ def prove_eq(lhs, rhs, hyps, opts):
             for case, (g,) in cases:
                 if g.op == "c" and g.args[0] == 0:
                     continue
-                st, info = tower.is_zero(g, budget_s=opts.get("ring_budget", 60.0))
+                ctrl = None
+                if not opts.get("no_control"):
+                    ats = [a_ for a_ in tm.atoms([g]) if a_.op == "v"]
+                    if ats:
+                        ctrl = tm.add(g, ats[0])  # negative control: goal shifted by a free atom must not be zero
+                st, info = tower.is_zero(g, budget_s=opts.get("ring_budget", 60.0), control=ctrl)
+                if st == "unsound":
+                    return "error", "ring", "negative control normalised to zero: back end unsound"
                 if st == "gaveup":
                     st, info = ring.is_zero(g, budget_s=opts.get("ring_budget", 60.0))
                 if st != "zero":
@@ -389,7 +396,7 @@ def _discharge(oname, kind, l, r, hyps, pts, opts, spec):
         # 3. proof
         if kind == "eq":
             st, be, det = prove_eq(terms[0], terms[1], hy, opts)
-            if st == "proved" and not opts.get("no_control"):
+            if st == "proved" and be != "ring" and not opts.get("no_control"):
                 # negative control: the same goal shifted by a non-zero atom must NOT be provable
                 ats = [a for a in tm.atoms(terms) if a.op == "v"]
                 if ats:
